@@ -326,6 +326,15 @@ def unit_si_frame(prop, which):
     return unit
 
 
+def unit_fbank(prop, which):
+    def unit(tier, known):
+        from contracts import filters_fbank as C
+        jobs = [("contracts.filters_fbank", "generate", (prop, which, label)) for label in C.LABELS[which]]
+        return run_parallel("fbank_" + which, jobs, to_case=C.to_case, replay_module="rtc.c05_tri")
+    unit.__name__ = "fbank_" + which
+    return unit
+
+
 UNITS = {
     "C03": [unit_si("C03", w) for w in ("chunk", "handle_skip", "preamble", "finalize", "full", "geometry")] + [unit_si_frame("C03", w) for w in ("fill", "frame", "dft", "idft")],
     "C13": [_lazy("contracts.shorten", "unit_bit_reader", "C13")],
@@ -336,13 +345,13 @@ UNITS = {
     "C18": [unit_pre("C18", "preemph"), unit_pre("C18", "dither")],
     "C12": [unit_copy_samples("C12"), _lazy("contracts.sphere", "unit_g711", "C12")],
     "C20": [unit_circshift("C20"), _lazy("contracts.util_misc", "unit_angular", "C20")],
-    "C05": [unit_tri("C05", "init"), unit_tri("C05", "truncated")],
-    "C06": [unit_tri("C06", "truncated")],
+    "C05": [unit_tri("C05", "init"), unit_tri("C05", "truncated"), unit_fbank("C05", "init"), unit_fbank("C05", "truncated")],
+    "C06": [unit_tri("C06", "truncated"), unit_tri("C06", "init"), unit_fbank("C06", "truncated"), unit_fbank("C06", "init")],
     "C14": [unit_torch_stft("C14")],
     "C09": [unit_torch_stft("C09")] + [_lazy_list("contracts.cli", "units", "C09", k) for k in range(2)],
     "C10": [_lazy_list("contracts.cli", "units", "C10", k) for k in range(3)],
     "C19": [_scales("C19")],
-    "C02": [unit_stft_frame("C02"), unit_stft("C02", "full"), unit_tri("C02", "init"), unit_tri("C02", "truncated")],
+    "C02": [unit_stft_frame("C02"), unit_stft("C02", "full"), unit_tri("C02", "init"), unit_tri("C02", "truncated"), unit_fbank("C02", "init"), unit_fbank("C02", "truncated")],
     "C01": [unit_stft("C01", "finalize"), unit_stft("C01", "chunk"), unit_fbf("C01")] + [unit_si("C01", w) for w in ("chunk", "handle_skip", "finalize", "full")] + [unit_si_frame("C01", w) for w in ("fill", "frame", "dft")],
     "C04": [unit_stft("C04", "finalize"), unit_stft("C04", "chunk"), unit_stft("C04", "full"), unit_fbf("C04"), unit_stft_fresh("C04")] +
            [unit_si("C04", w) for w in ("preamble", "finalize", "full", "chunk")],
